@@ -294,6 +294,16 @@ pub fn c07(tier: &str) -> i32 {
         &["op:reload", "op-with-trades", "modify-requeue", "market-rejected", "cancel-of-partially-filled"],
         if t { 3000 } else { 40 },
     );
+    // unbounded-depth closure: a snapshot reload is an action in every abstract book state, and the
+    // states reached within two operations after a reload are expanded separately (so every
+    // action pair + sweep also runs on a book rebuilt from its snapshot)
+    let mon_c = Monitors { reference: true, drain: true, views: true, life: true, reload_equal: true, ..Default::default() };
+    crate::absx::run_closure(
+        &mut out,
+        &mon_c,
+        &crate::absx::ClosureCfg { label: "C07: reload in every state (modify, toggles, create/place)", max_rest: 3, max_vol: 2, modify: true, toggles: true, create: true, redundant: false, ties: false, prices: if t { 3 } else { 2 }, reload_depth: 2 },
+        false,
+    );
     truncation_part(&mut out, t);
     crate::marketx::c07_market_part(&mut out, t);
     out.assumptions = vec![
